@@ -419,6 +419,108 @@ def rule_hybrid_config(ctx):
         ctx.ok(rid, "parse|layout", "%d field combinations: read widths and fields equal the format's HybridUintConfig" % rows, nontrivial=True, fn=f)
 
 
+def rule_clusters_eval(ctx):
+    """read_clusters, evaluated from MIR with scripted reads, decodes the context map of the format"""
+    from .. import absint
+    rid = "R-CLUSTER-MAP"
+    ctx.rule(rid, "jxl_coding::read_clusters is evaluated from MIR (nothing is run) with the bit reads and the nested entropy decoder "
+                  "replaced by scripted sources, and compared with ISO/IEC 18181-1 C.2.2 (distribution clustering): one distribution "
+                  "-> one cluster without reading anything; the simple form reads nbits = u(2) and one u(nbits) per distribution; "
+                  "the general form reads use_mtf and one symbol per distribution from a nested one-context decoder, rejects a symbol "
+                  "above 255, and applies the inverse move-to-front transform when asked; the number of clusters is the largest "
+                  "index + 1 and every index below it must occur")
+    cr = ctx.prog.crate("jxl_coding")
+    f = cr.fn("jxl_coding::read_clusters")
+    if f is None or f.argc != 2:
+        ctx.anchor_missing(rid, "jxl_coding::read_clusters(bitstream, num_dist)")
+        return
+    ctx.seen(f)
+
+    def imtf(syms):
+        m = list(range(256))
+        out = []
+        for s_ in syms:
+            v = m[s_]
+            out.append(v)
+            del m[s_]
+            m.insert(0, v)
+        return out
+
+    def verdict(cl):
+        n = max(cl) + 1
+        return ("ok", n, cl) if len(set(cl)) == n else ("err",)
+    cases = [("one distribution", 1, [], [], ("ok", 1, [0]))]
+    for nbits, vals in ((0, [0, 0, 0]), (1, [0, 1, 1, 0]), (2, [3, 0, 2, 1, 1]), (2, [0, 2, 2]), (3, [0, 1]), (1, [1, 1])):
+        cases.append(("simple form, nbits %d, %s" % (nbits, vals), len(vals), [1, nbits] + [v & ((1 << nbits) - 1) for v in vals], [],
+                      verdict([v & ((1 << nbits) - 1) for v in vals])))
+    for mtf, syms in ((0, [0, 1, 2, 1, 0]), (0, [0, 0]), (0, [2, 0, 2]), (0, [0, 1, 255]), (1, [0, 1, 1, 2, 0, 3]), (1, [1, 1, 1]), (1, [0, 0, 0, 0]),
+                      (1, [2, 2, 2, 0, 1]), (1, [1, 0]), (0, [0, 1, 256]), (1, [0, 300, 1]), (1, [3, 0, 3, 3, 1, 2, 0])):
+        if max(syms) > 255:
+            want = ("err",)
+        else:
+            want = verdict(imtf(syms) if mtf else list(syms))
+        cases.append(("general form, use_mtf %d, symbols %s" % (mtf, syms), len(syms), [0, mtf], list(syms), want))
+    rows, bad, undec = 0, None, None
+    for name, nd, bits, syms, want in cases:
+        bi, si = iter(bits), iter(syms)
+        log = []
+
+        def rb(args, bi=bi, log=log):
+            log.append(args[1] if len(args) > 1 else "bool")
+            try:
+                v = next(bi)
+            except StopIteration:
+                v = 0       # reads past the script belong to the nested decoder's own header when its parser is inlined (benign N04)
+            return absint.Enum("core::result::Result", 0, "Ok", [v])
+
+        def rv(args, si=si):
+            try:
+                return absint.Enum("core::result::Result", 0, "Ok", [next(si)])
+            except StopIteration:
+                raise absint.Unsupported("more symbols read than there are distributions")
+        okunit = lambda args: absint.Enum("core::result::Result", 0, "Ok", [()])
+        okdec = lambda args: absint.Enum("core::result::Result", 0, "Ok", [absint.Struct([])])
+        ev = absint.Evaluator(ctx.prog)
+        ev.max_steps = 400000
+        ev.intercept = {"Bitstream::<'_>::read_bits": rb, "Bitstream::read_bits": rb, "Bitstream::<'_>::read_bool": rb, "Bitstream::read_bool": rb,
+                        "Decoder::parse": okdec, "Decoder::parse_assume_no_lz77": okdec, "DecoderInner::parse": okdec, "Decoder::begin": okunit, "Decoder::finalize": okunit,
+                        "Decoder::read_varint": rv}
+        try:
+            r = ev.call_fn(f, [absint.Ref(("ext", "bitstream")), nd])
+        except absint.Unsupported as e:
+            undec = "case `%s`: %s" % (name, e)
+            break
+        rows += 1
+        got = None
+        if isinstance(r, absint.Enum) and r.name == "Err":
+            got = ("err",)
+        elif isinstance(r, absint.Enum) and r.name == "Ok" and isinstance(r.fields[0], tuple) and len(r.fields[0]) == 2:
+            n_, cl = r.fields[0]
+            cl = cl.items() if isinstance(cl, absint.BufView) else list(cl) if isinstance(cl, (tuple, list)) else None
+            got = ("ok", n_, cl)
+        if got is None:
+            undec = "case `%s`: result %r" % (name, r)
+            break
+        leftover = (len(list(bi)) + len(list(si))) if want[0] == "ok" else 0      # a rejection may stop reading early
+        if name.startswith("simple form") and want[0] == "ok":
+            nb = bits[1]
+            if log != ["bool", 2] + [nb] * nd:
+                leftover = -1       # the simple form reads exactly u(1), u(2) and one u(nbits) per distribution
+        if (got != want or leftover) and bad is None:
+            bad = (name, got, want, leftover)
+    ctx.count(rid + ".cases", rows)
+    if undec:
+        ctx.bad(rid, "read_clusters|not-evaluable", "read_clusters is no longer a function the evaluator can decide (%s)" % undec, fn=f)
+        return
+    ctx.floor(rid + ".cases", 19)
+    if bad:
+        ctx.bad(rid, "read_clusters|context-map", "%s: decodes to %s, the format gives %s (%d scripted reads left unread): every later symbol "
+                "of the stream is read with the wrong distribution" % bad, fn=f)
+    else:
+        ctx.ok(rid, "read_clusters|context-map", "%d cases: cluster count and map equal the format's, holes and symbols above 255 rejected" % rows,
+               nontrivial=True, fn=f)
+
+
 def main(pid, tier, repo=None):
     ctx = Ctx(pid, tier, configs=("workspace",), repo=repo)
     specconst.run(ctx, pid, floor=2)
@@ -429,6 +531,7 @@ def main(pid, tier, repo=None):
     rule_symbol_refill(ctx)
     rule_prevsym_commit(ctx)
     rule_hybrid_config(ctx)
+    rule_clusters_eval(ctx)
     ctx.not_decided("that decoding returns exactly the encoded sequence and consumes exactly the encoded bits for every distribution set "
                     "(alias table construction, two-level prefix tables, hybrid-integer expansion, RLE / single-token shortcuts): value-level")
     return ctx.finish(
